@@ -237,7 +237,7 @@ type ChainInput struct {
 
 func chainText(in ChainInput) string {
 	var sb strings.Builder
-	sb.WriteString(`module m { namespace "urn:m"; prefix m; identity base; identity d { base base; } leaf target { type string; }` + "\n")
+	sb.WriteString(`module m { namespace "urn:m"; prefix m; import openconfig-extensions { prefix oc-ext; } identity base; identity d { base base; } leaf target { type string; }` + "\n")
 	base := "string"
 	body := ""
 	switch in.Kind {
@@ -262,7 +262,8 @@ func chainText(in ChainInput) string {
 			sb.WriteString(body)
 		}
 		if bits&4 != 0 && in.Kind == "string" {
-			fmt.Fprintf(&sb, ` pattern "p%d.*";`, lvl+1)
+			// ... and a POSIX pattern of the very same text (the two lists are kept apart)
+			fmt.Fprintf(&sb, ` pattern "p%d.*"; oc-ext:posix-pattern "%s";`, lvl+1, posixFor(lvl+1))
 		}
 		sb.WriteString(" }")
 		if bits&1 != 0 {
@@ -277,7 +278,7 @@ func chainText(in ChainInput) string {
 	leaf := func(name, extra string) {
 		fmt.Fprintf(&sb, " leaf %s { type t3", name)
 		if extra == "pattern" && in.Kind == "string" {
-			fmt.Fprintf(&sb, ` { pattern "%s.*"; }`, name)
+			fmt.Fprintf(&sb, ` { pattern "%s.*"; oc-ext:posix-pattern "%s"; }`, name, posixFor(4))
 		} else {
 			sb.WriteString(";")
 		}
@@ -294,6 +295,15 @@ func chainText(in ChainInput) string {
 	leaf("plain", "")
 	sb.WriteString(" leaf-list ll { type t3; }\n leaf mand { type t3; mandatory true; }\n}")
 	return sb.String()
+}
+
+// posixFor: the POSIX pattern written at a level has the text of the *pattern* one level up (the two
+// lists are kept apart: a POSIX pattern is new even when a pattern of that text is inherited).
+func posixFor(lvl int) string {
+	if lvl == 1 {
+		return "q1.*"
+	}
+	return fmt.Sprintf("p%d.*", lvl-1)
 }
 
 func defaultFor(kind string, lvl int) string {
@@ -316,6 +326,9 @@ func checkChain(in ChainInput) *fail {
 	var f *fail
 	pan, pt := core.Guard(func() {
 		ms := yang.NewModules()
+		if err := ms.Parse(`module openconfig-extensions { namespace "urn:oc-ext"; prefix oc-ext; extension posix-pattern { argument pattern; } }`, "openconfig-extensions.yang"); err != nil {
+			panic(err)
+		}
 		if err := ms.Parse(chainText(in), "m.yang"); err != nil {
 			f = &fail{"load-error", "loads", err.Error()}
 			return
@@ -364,6 +377,18 @@ func checkChain(in ChainInput) *fail {
 			}
 			if fmt.Sprint(t.Pattern) != fmt.Sprint(wantPat) {
 				problems = append(problems, fmt.Sprintf("patterns %q want %q", t.Pattern, wantPat))
+			}
+			var wantPosix []string
+			for lvl := 0; lvl < 3; lvl++ {
+				if (in.Code>>(3*lvl))&4 != 0 && in.Kind == "string" {
+					wantPosix = append(wantPosix, posixFor(lvl+1))
+				}
+			}
+			if (name == "x" || name == "y") && in.Extra == "pattern" && in.Kind == "string" {
+				wantPosix = append(wantPosix, posixFor(4))
+			}
+			if fmt.Sprint(t.POSIXPattern) != fmt.Sprint(wantPosix) {
+				problems = append(problems, fmt.Sprintf("POSIX patterns %q want %q", t.POSIXPattern, wantPosix))
 			}
 			// the type's Root - "the root of this type that is the same", which the command's types
 			// and tree formats print in the type's place - carries the same chain
